@@ -38,7 +38,8 @@ ASSUME = [
 ]
 
 EXC_CODE = {"FileNotFoundError": 1, "IsADirectoryError": 2, "NotADirectoryError": 3, "FileExistsError": 4,
-            "MemoryError": 5, "AssertionError": 6, "KeyError": 7}
+            "MemoryError": 5, "AssertionError": 6, "KeyError": 7, "OSError": 8,
+            "UnpicklingError": 9, "EOFError": 9, "ValueError": 9, "AttributeError": 9, "ModuleNotFoundError": 9, "IndexError": 9, "TypeError": 9}
 
 
 # ---------------------------------------------------------------- translator
@@ -381,8 +382,36 @@ def model_state(ms):
 
 
 def accounting_ok(fc):
-    tot = sum(int(b) for (_, b, _) in fc.file_futures.values())
+    """current_memory_usage = sum of the sizes of the entries whose contents the cache really holds; within [0, max]"""
+    tot = 0
+    for (w, b, fut) in fc.file_futures.values():
+        if not w and fut.done() and fut.exception() is None:
+            tot += int(b)
     return int(fc.current_memory_usage) == tot and 0 <= fc.current_memory_usage <= fc.max_memory
+
+
+class ReadFault:
+    """one-shot read fault for one path, installed as `open` of klongpy.db.file_cache"""
+    def __init__(self, fcm):
+        self.fcm = fcm
+        self.path = None
+        self.hit = False
+
+    def arm(self, path):
+        import builtins
+        self.path, self.hit = os.path.abspath(path), False
+        real = builtins.open
+
+        def hooked(p, mode="r", *a, **k):
+            if self.path is not None and "r" in mode and os.path.abspath(p) == self.path:
+                self.path, self.hit = None, True
+                raise OSError(5, "Input/output error (injected)")
+            return real(p, mode, *a, **k)
+        self.fcm.open = hooked
+
+    def disarm(self):
+        self.path = None
+        self.fcm.__dict__.pop("open", None)
 
 
 # ---------------------------------------------------------------- value pool
@@ -413,6 +442,13 @@ def prefix_conflict(keys):
 FREE_KEYS = ["a", "b", "c", "d", "e/f", "e/g", "h/i/j"]
 CONFLICT_KEYS = ["a/x", "e", "h/i", "e/f/k"]
 # distinct keys that differ only by a common scratch suffix (a store must not use names derived from a key)
+# near-collision families: keys a file-name "sanitiser" (reserved characters, case folding, unicode normalisation,
+# percent-decoding, trimming) would map to one file; the key -> file map must be injective
+NEAR_COLLISIONS = [
+    ["t/09:30", "t/09_30", "t/09-30"], ["q?", "q*", "q_"], ["a b", "a_b", "a%20b", "a+b"], ["x#1", "x_1", "x%231"],
+    ["Ab", "ab", "AB"], ["w.", "w", "w.."], ["u\\v", "u_v"], ["\u00e9", "e\u0301", "e"], ["n<1>", "n_1_", "n(1)"],
+    ["p|q", "p_q"], ['d"q', "d_q", "d'q"], ["g/K", "g/k"], ["m ", "m"], ["z:1", "z_1", "z;1"],
+]
 SCRATCH_SUFFIXES = [".tmp", ".bak", "~", ".new", ".lock", ".part", ".swp", ".old", ".tmp~", "-journal"]
 
 
@@ -423,6 +459,9 @@ def gen_sequence(rng, nops, lens, conflict):
     keys = rng.sample(FREE_KEYS, rng.randint(2, 5))
     if conflict:
         keys += rng.sample(CONFLICT_KEYS, rng.randint(1, 2))
+    if rng.random() < 0.35:
+        fam = rng.choice(NEAR_COLLISIONS)
+        keys = rng.sample(fam, rng.randint(2, len(fam))) + keys
     if rng.random() < 0.4:
         # siblings "<key><suffix>" of one or two of the keys (flat and nested), put FIRST so that they tend to be set first
         sib = [k + rng.choice(SCRATCH_SUFFIXES if rng.random() < 0.5 else SCRATCH_SUFFIXES[:1]) for k in rng.sample(keys[:5], min(2, len(keys)))]
@@ -434,6 +473,7 @@ def gen_sequence(rng, nops, lens, conflict):
     ops = []
     t = 1000
     used = set()
+    faults = rng.random() < 0.3
     for i in range(nops):
         r = rng.random()
         # clock: mostly increasing, sometimes a tie, sometimes going back
@@ -458,8 +498,14 @@ def gen_sequence(rng, nops, lens, conflict):
             else:
                 key = rng.choice(keys)
             ops.append({"op": "get", "key": key, "t": t})
-        elif r < 0.90:
+        elif r < 0.85:
             ops.append({"op": "unload", "key": rng.choice(keys)})
+        elif r < 0.90:
+            if faults:
+                # a get whose load hits a transient read fault (only taken when the key is not cached)
+                ops.append({"op": "getfault", "key": rng.choice(sorted(used) or keys), "t": t})
+            else:
+                ops.append({"op": "unload", "key": rng.choice(keys)})
         else:
             nk = rng.choice(["same", "one", "all", "two", "default"])
             nmx = {"same": mx, "one": pl[-1], "all": 10 ** 7, "two": pl[-1] + pl[0], "default": 0}[nk]
@@ -493,6 +539,7 @@ class KvsRunner:
         self._orig_heapq = fcm.heapq
         self.hq = HeapqProxy()
         fcm.heapq = self.hq
+        self.fault = ReadFault(fcm)
         self.lens = [len(orig(v)) for _, v in self.vals]
         self.n = 0
 
@@ -543,13 +590,21 @@ class KvsRunner:
                         else:
                             st.set(o["key"], v)
                         rec["res"] = ["set"]
-                    elif o["op"] == "get":
-                        if klong_level:
-                            k["s"] = st
-                            r = k('s?"%s"' % o["key"])
-                        else:
-                            r = st.get(o["key"])
-                            r = KLONG_UNDEFINED if r is None else r
+                    elif o["op"] in ("get", "getfault"):
+                        if o["op"] == "getfault":
+                            self.fault.arm(os.path.join(root, o["key"]))
+                        try:
+                            if klong_level:
+                                k["s"] = st
+                                k["kk"] = o["key"]
+                                r = k("s?kk")
+                            else:
+                                r = st.get(o["key"])
+                                r = KLONG_UNDEFINED if r is None else r
+                        finally:
+                            if o["op"] == "getfault":
+                                rec["fault_hit"] = self.fault.hit
+                                self.fault.disarm()
                         if r is KLONG_UNDEFINED:
                             # a stored :undefined and a missing key are indistinguishable at Klong level; tell by the file
                             rec["res"] = ["undef"]
@@ -597,6 +652,8 @@ def model_request(seq, recs, catches, dirsize):
             ops.append(["set", key_to_name(o["key"]), [i, l, l], o["t"], r["popped"]])
         elif o["op"] == "get":
             ops.append(["get", key_to_name(o["key"]), o["t"], r["popped"]])
+        elif o["op"] == "getfault":
+            ops.append(["getfault", key_to_name(o["key"]), o["t"], r["popped"], 8])
         elif o["op"] == "unload":
             ops.append(["unload", key_to_name(o["key"])])
         else:
@@ -609,7 +666,21 @@ def oracle_kvs(seq, recs, runner):
     Returns None or (index, what)."""
     d = {}
     mx = seq["max"] or 2 ** 20
+    tainted = set()          # keys whose load failed in the current store object (known finding C16-failed-load-entry)
+    seq["k5"] = False
     for i, (o, r) in enumerate(zip(seq["ops"], recs)):
+        if o.get("key") in tainted:
+            seq["k5"] = True
+        if o["op"] == "reopen":
+            tainted = set()
+        if o["op"] == "getfault":
+            if r["res"] == ["err", 8] and r.get("fault_hit"):
+                tainted.add(o["key"])
+                if not r["acct_ok"]:
+                    return i, "cache accounting after a failed load: current_memory_usage=%s entries=%s max=%s" % (
+                        r["state"][0], [(name_to_key(e[0]), e[2], e[3]) for e in r["state"][1]], r["state"][4])
+                continue
+            o = dict(o, op="get")
         if not r["acct_ok"]:
             return i, "cache accounting: current_memory_usage=%s entries=%s max=%s" % (
                 r["state"][0], [(name_to_key(e[0]), e[2]) for e in r["state"][1]], r["state"][4])
@@ -653,7 +724,9 @@ def check_kvs(chk, rng, runner, catches, dirsize):
         n = min(1000, nseq - done)
         r = _check_kvs_chunk(chk, rng, runner, catches, dirsize, n, seen, done)
         for i in range(3):
-            if acc[i] is None:
+            if i == 1 and r[i] is not None:
+                acc[i] = dict(r[i], **(acc[i] or {}))
+            elif acc[i] is None:
                 acc[i] = r[i]
         done += n
     return tuple(acc)
@@ -697,9 +770,16 @@ def _check_kvs_chunk(chk, rng, runner, catches, dirsize, nseq, seen, base):
             rep = dict(describe_seq(seq, runner), failing_op=orc[0], what=orc[1])
             if is_conf:
                 if bad_known is None:
-                    bad_known = rep
+                    bad_known = {}
+                bad_known.setdefault("C16-prefix-keys", rep)
+            elif seq.get("k5"):
+                if bad_known is None:
+                    bad_known = {}
+                bad_known.setdefault("C16-failed-load-entry", rep)
             elif bad_prop is None:
                 bad_prop = rep
+        if any(o["op"] == "getfault" for o in seq["ops"]):
+            chk.count("kvs_sequences_with_read_fault")
         # model equality, after every op
         if not (isinstance(mout, list) and len(mout) == len(recs)):
             if bad_corr is None:
@@ -721,7 +801,7 @@ def _check_kvs_chunk(chk, rng, runner, catches, dirsize, nseq, seen, base):
                 break
         # spec = model on conflict-free sequences is the Coq theorem; here the spec run is compared with the
         # implementation too (cheap, and it is the second, independent oracle)
-        if not is_conf and isinstance(sout, list) and len(sout) == len(recs):
+        if not is_conf and not any(o["op"] == "getfault" for o in seq["ops"]) and isinstance(sout, list) and len(sout) == len(recs):
             for i, (r, s_) in enumerate(zip(recs, sout)):
                 sres = [s_[0]] if s_[0] in ("set", "undef", "none", "val") else list(s_)
                 if list(r["res"]) != sres and bad_prop is None:
@@ -756,6 +836,7 @@ def check_dfcache(chk, rng, workdir, dirsize):
     orig_heapq = fcm.heapq
     hq = HeapqProxy()
     fcm.heapq = hq
+    fault = ReadFault(fcm)
     nseq = 500 if chk.tier == "quick" else 4000
     keys = ["a", "b", "c", "e/f", "e/g"]
     bad_prop = bad_corr = None
@@ -777,6 +858,7 @@ def check_dfcache(chk, rng, workdir, dirsize):
             def ckey(df):
                 return by_bytes.get(serialize_df(df), -1)
             ops, recs = [], []
+            keys_live = list(keys)
             t = 10
             # corpus template (regression of the repaired finding d346f94): a cached key is overwritten by contents that
             # are served uncached, then three mid-size frames on other keys force an eviction; random ops are mixed in
@@ -793,7 +875,7 @@ def check_dfcache(chk, rng, workdir, dirsize):
                 clock.plan([t])
                 hq.popped = []
                 r = rng.random()
-                key = rng.choice(keys)
+                key = rng.choice(keys_live or keys)
                 forced = script[i] if script is not None else None
                 if forced is not None:
                     key = forced[1]
@@ -810,9 +892,19 @@ def check_dfcache(chk, rng, workdir, dirsize):
                         ops.append(["set", key_to_name(key), [fi + 1, lens[fi], mems[fi]], t, []])
                         fc.update_file(key, ser[fi])
                         res = ["set"]
-                    elif r < 0.8:
+                    elif r < 0.72:
                         ops.append(["get", key_to_name(key), t, []])
                         res = ["val", ckey(fc.get_file(key))]
+                    elif r < 0.8 and forced is None:
+                        # a get whose load hits a transient read fault; the key is left alone afterwards (known finding otherwise)
+                        ops.append(["getfault", key_to_name(key), t, [], 8])
+                        fault.arm(os.path.join(root, key))
+                        try:
+                            res = ["val", ckey(fc.get_file(key))]
+                        finally:
+                            if fault.hit and key in keys_live:
+                                keys_live.remove(key)
+                            fault.disarm()
                     elif r < 0.9:
                         ops.append(["unload", key_to_name(key)])
                         fc.unload_file(key)
@@ -823,6 +915,7 @@ def check_dfcache(chk, rng, workdir, dirsize):
                         fc = PandasDataFrameCache(max_memory=nmx, root_path=root)
                         fc.executor.shutdown(wait=True)
                         fc.executor = LazyExecutor()
+                        keys_live = list(keys)
                         res = ["none"]
                 except BaseException as e:  # noqa
                     if isinstance(e, (KeyboardInterrupt, SystemExit)):
@@ -830,6 +923,8 @@ def check_dfcache(chk, rng, workdir, dirsize):
                     res = ["err", exc_code(e)]
                 if ops[-1][0] in ("set", "get"):
                     ops[-1][-1] = [key_to_name(n) for n in hq.popped]
+                elif ops[-1][0] == "getfault":
+                    ops[-1][3] = [key_to_name(n) for n in hq.popped]
                 st = snapshot(fc, root, None, ckey, lambda b: by_bytes.get(b, -1))
                 recs.append((res, st, accounting_ok(fc)))
             shutil.rmtree(root, ignore_errors=True)
@@ -852,7 +947,12 @@ def check_dfcache(chk, rng, workdir, dirsize):
                 want = ["set"] if o[2][1] <= cur else ["err", 5]
                 if want == ["set"]:
                     dd[tuple(o[1])] = (o[2][0], o[2][1])
-            elif o[0] == "get":
+            elif o[0] in ("get", "getfault"):
+                if o[0] == "getfault" and res == ["err", 8]:
+                    if not acct and bad_prop is None:
+                        bad_prop = {"kind": "dfcache", "max_memory": mx, "ops": ops, "failing_op": i,
+                                    "what": "cache accounting after a failed load: current_memory_usage=%s entries=%s" % (st[0], st[1])}
+                    continue
                 if tuple(o[1]) in dd:
                     fid, ln = dd[tuple(o[1])]
                     want = ["val", fid] if ln <= cur else ["err", 5]
@@ -924,6 +1024,8 @@ def check_tables(chk, rng, workdir, dirsize):
             d = {}
             fetched = {}          # key -> Table objects handed out by gets of the CURRENT store object
             seq_keys = keys + (["p.tmp", "r/s.tmp", "q~"] if rng.random() < 0.3 else [])
+            if rng.random() < 0.3:
+                seq_keys = seq_keys + rng.choice(NEAR_COLLISIONS)[:3]
             base_cols = ["v", "s"] if with_str else ["v"]
             ops, recs = [], []
             pending, force_mod_key = None, None
@@ -947,27 +1049,38 @@ def check_tables(chk, rng, workdir, dirsize):
                 try:
                     if r < 0.5:
                         n = rng.choice([1, 2, 3, 5, 8, 12, 40]) if rng.random() < 0.9 else 300
+                        if rng.random() < 0.12:
+                            n = 0                      # a table with columns but no rows is a value too
                         hi = max(3, n)
                         rows = []
                         for _ in range(n):
                             serial += 1
                             rows.append((rng.randint(0, hi), serial))
-                        cols = {"v": [v for _, v in rows]}
+                        cols = {"v": pd.Series([v for _, v in rows], dtype="int64")}
                         if with_str:
-                            cols["s"] = ["abc%d" % v for _, v in rows]
-                        df = pd.DataFrame(cols, index=[i_ for i_, _ in rows])
+                            cols["s"] = pd.Series(["abc%d" % v for _, v in rows], dtype=object)
+                        df = pd.DataFrame(cols)
+                        df.index = pd.Index([i_ for i_, _ in rows], dtype="int64")
+                        if n == 0:
+                            chk.count("table_sets_of_zero_row_tables")
                         clock.plan([t, t + 1])
                         ops.append(["set", key_to_name(key), ["rows"] + [[a, b] for a, b in rows], t, t + 1])
                         k["ts"] = ts
                         k["tb"] = Table(df)
-                        k('ts,"%s",,tb' % key)
+                        import numpy as np
+                        kv = np.empty(2, dtype=object)
+                        kv[0] = key
+                        kv[1] = Table(df)
+                        k["kv"] = kv
+                        k("ts,kv")
                         d[key] = py_merge(d.get(key, []), rows)
                         res = ["set"]
                     elif r < 0.76:
                         clock.plan([t])
                         ops.append(["get", key_to_name(key), t])
                         k["ts"] = ts
-                        got = k('ts?"%s"' % key)
+                        k["kk"] = key
+                        got = k("ts?kk")
                         if got is KLONG_UNDEFINED:
                             res = ["undef"]
                             if key in d:
@@ -1061,6 +1174,64 @@ def check_tables(chk, rng, workdir, dirsize):
     return bad_prop, bad_corr
 
 
+def table_damage_scenario(chk, rng, workdir):
+    """a table file on disk is damaged (as after a disk fault): reading it raises; the accounting of the held entries
+    and every other key must be unaffected, right after the failure and after further gets/sets"""
+    import pandas as pd
+    from klongpy.core import KLONG_UNDEFINED
+    from klongpy.db.sys_fn_kvs import TableStorage
+    from klongpy.db.sys_fn_db import Table
+    for j in range(3):
+        root = os.path.join(workdir, "dmg%d" % j)
+        os.makedirs(root)
+        try:
+            mk = lambda lo, n: Table(pd.DataFrame({"v": list(range(lo, lo + n))}, index=list(range(n))))
+            mx = rng.choice([2000, 10 ** 6])
+            ts = TableStorage(root, max_memory=mx)
+            ts.set("p", mk(0, 3)); ts.set("q", mk(10, 4)); ts.set("r/s", mk(20, 2))
+            ts.cache.executor.shutdown(wait=True)
+            ts = TableStorage(root, max_memory=mx)
+            with open(os.path.join(root, "p"), "wb") as f:
+                f.write([b"\x00garbage", b"", b"\x80\x04\x95"][j])
+            steps = []
+            def acct(when):
+                if not accounting_ok(ts.cache):
+                    return {"kind": "tables-damaged-file", "max_memory": mx, "steps": steps, "what":
+                            "table cache accounting %s: current_memory_usage=%s entries=%s" % (
+                                when, ts.cache.current_memory_usage,
+                                [(n, int(b), f_.done() and f_.exception() is None) for n, (w, b, f_) in ts.cache.file_futures.items()])}
+                return None
+            try:
+                r = ts.get("p")
+                steps.append("get p -> %s" % ("undefined" if r is KLONG_UNDEFINED else "table"))
+            except BaseException as e:  # noqa
+                steps.append("get p raised %s" % type(e).__name__)
+            chk.count("evaluations"); chk.count("table_damaged_file_reads")
+            bad = acct("after reading a damaged table file")
+            if bad:
+                return bad
+            for key, lo, n in (("q", 10, 4), ("r/s", 20, 2)):
+                got = ts.get(key)
+                steps.append("get %s" % key)
+                if got is KLONG_UNDEFINED or got.get_dataframe()["v"].tolist() != list(range(lo, lo + n)):
+                    return {"kind": "tables-damaged-file", "steps": steps, "what": "table %s reads wrongly after another key's file was damaged" % key}
+                bad = acct("after get %s" % key)
+                if bad:
+                    return bad
+            ts.set("q", mk(100, 6))
+            steps.append("set q")
+            bad = acct("after set q")
+            if bad:
+                return bad
+        finally:
+            try:
+                ts.cache.executor.shutdown(wait=True)
+            except Exception:
+                pass
+            shutil.rmtree(root, ignore_errors=True)
+    return None
+
+
 # ---------------------------------------------------------------- known-finding witnesses (mirrors of the Coq _refuted witnesses)
 def witness_prefix(runner):
     """C16_prefix_refuted: set a/x; get a  (a was never set: the property says :undefined)"""
@@ -1142,13 +1313,26 @@ def run(tier, replay=None):
                 bad_props.append(rep3)
             if [x[0][0] for x in m3] != ["set", "val", "set"]:
                 bad_corrs.append(dict(rep3, kind="mem-over-limit witness", model=str(m3)[:300]))
+            # known finding: the entry of a failed load stays (same key: remembered error, wrong accounting)
+            seq5 = {"max": 0, "limit_kind": "default", "conflict": False, "ops": [
+                {"op": "set", "key": "a", "val": 4, "t": 1}, {"op": "reopen", "max": 0}, {"op": "getfault", "key": "a", "t": 2},
+                {"op": "get", "key": "a", "t": 3}, {"op": "set", "key": "a", "val": 4, "t": 4}]}
+            recs5 = runner.run(seq5)
+            m5 = chk.run_model([model_request(seq5, recs5, catches, dirsize)[0]])[0]
+            model5 = [list(x[0]) for x in m5][2:4] == [["err", 8], ["err", 8]]
+            impl5 = recs5[2]["res"] == ["err", 8] and recs5[3]["res"] == ["err", 8] and not recs5[4]["acct_ok"]
+            if impl5 and model5:
+                chk.finding("C16-failed-load-entry", "the entry of a failed load stays", describe_seq(seq5, runner))
+            elif impl5 != model5 and not (recs5[3]["res"][0] == "val" and recs5[4]["acct_ok"]):
+                bad_corrs.append(dict(describe_seq(seq5, runner), what="failed-load witness: model and implementation disagree",
+                                      impl=[r["res"] for r in recs5], model=str(m5)[:300]))
             bp, bk, bc = check_kvs(chk, rng, runner, catches, dirsize)
         finally:
             runner.close()
         if bp:
             bad_props.append(bp)
-        if bk:
-            chk.finding("C16-prefix-keys", "keys in path-prefix relation interfere: " + bk["what"], bk)
+        for fid, rep in (bk or {}).items():
+            chk.finding(fid, rep["what"], rep)
         if bc:
             bad_corrs.append(bc)
         bp, bc = check_dfcache(chk, rng, workdir, dirsize)
@@ -1156,6 +1340,9 @@ def run(tier, replay=None):
             bad_props.append(bp)
         if bc:
             bad_corrs.append(bc)
+        bp = table_damage_scenario(chk, rng, workdir)
+        if bp:
+            bad_props.append(bp)
         bp, bc = check_tables(chk, rng, workdir, dirsize)
         if bp:
             bad_props.append(bp)
